@@ -252,6 +252,10 @@ func (i IndexFile) WriteJSONFile(dest string, mode os.FileMode) error {
 //
 // This can leave the index in an unsorted state
 func (i *IndexFile) Merge(f *IndexFile) {
+	if i.Entries == nil {
+		// an index loaded from a file without an entries key
+		i.Entries = map[string]ChartVersions{}
+	}
 	for _, cvs := range f.Entries {
 		for _, cv := range cvs {
 			if !i.Has(cv.Name, cv.Version) {
